@@ -277,6 +277,6 @@ func classifyRtspAuth(c RtspAuthCase) (bool, []string) {
 func TestRtspAuth(t *testing.T) {
 	pbt.Run(t, pbt.Spec[RtspAuthCase]{
 		ID: "C14", Name: "rtsp-auth", Gen: genRtspAuth, Run: runRtspAuth, Classify: classifyRtspAuth,
-		Quick: 600, Thorough: 2500,
+		Quick: 500, Thorough: 2500,
 	})
 }
